@@ -103,6 +103,14 @@ def c04_items(tier, rnd):
             else:
                 Ps.append(bf.mkP("enum", "Default", [{"shape": "unit", "fields": []},
                                                      {"shape": "named", "dmark": True, "vb": bf.LS(None, ch[3]), "fields": [f, bf.fld(TY_OPT)]}]))
+    for ch in itertools.product(A4, repeat=4):
+        for kind in ("struct", "enum"):
+            f = bf.fld(TY_T, bf.LS({"debug": ch[0]}, ch[1], ch[2]), dbg="transparent")
+            other = bf.fld(TY_OPT, dbg="ignore") if ch[3] in ("empty", "P") else bf.fld(TY_OPT)
+            if kind == "struct":
+                Ps.append(bf.mkP("struct", "Debug", [{"shape": "named", "fields": [other, f]}], tb=bf.LS(None, ch[3])))
+            else:
+                Ps.append(bf.mkP("enum", "Debug", [{"shape": "tuple", "vb": bf.LS(None, ch[3]), "fields": [f, other]}, {"shape": "unit", "fields": []}]))
     for t in ("Clone", "Copy", "PartialEq", "Eq", "PartialOrd", "Ord", "Hash", "Debug", "Default"):
         alpha = A4 if tier == "quick" else A6
         if t in ("Debug", "Default"):
@@ -237,7 +245,7 @@ def usage_states(t):
     if t == "Debug":
         st += [("dbg_ignore", lambda f: dict(f, dbg="ignore")), ("dbg_transparent", lambda f: dict(f, dbg="transparent"))]
     if t == "Default":
-        st += [("dval", lambda f: dict(f, dval=True))]
+        st += [("dval", lambda f: dict(f, dval=True)), ("tval", lambda f: f)]
     if t in cf.TRAITS:
         def with_ord(o):
             def m(f):
@@ -343,6 +351,8 @@ def c03_items(tier, rnd):
                             for p in P["params"]:
                                 if p["k"] == "type":
                                     p["inline"] = "::dx_support::Tr"
+                        if stag == "tval":
+                            P["tval"] = True
                         P["strict"] = True
                         P["usage"] = stag
                         P["conc"] = "int" if (t in bf.BINOPS or t in bf.UNOPS or t.endswith("Assign") or t == "Copy") else "any"
@@ -401,9 +411,11 @@ def c03(tier):
         sig = {"kind": "generic_impl_does_not_compile", "trait": P["t"], "item": P["kind"], "usage": P.get("usage"), "codes": codes, "types": "+".join(ftys)}
         ck.violation(sig, {"what": "the derived generic impl does not type-check with its default bounds", "source": src, "diagnostics": res[i][1]})
     ck.notes["programs_compiled"] = len(plist)
+    # (ii) behavioural: trait-solver bit matrix, derived impl vs twin impl carrying TLC's where-clause
+    nprobe = c03_probe(ck, tier, Ps)
     for i in (0, len(events) // 2, len(events) - 1):
         ck.sample({"request": reqs[i]["item"][:300], "attr": reqs[i]["attr"], "observed_tags": events[i]["impls"]})
-    ck.cov["evaluations"] = len(events) + len(cev)
+    ck.cov["evaluations"] = len(events) + len(cev) + nprobe
     ck.cov["distinct_nontrivial"] = len(set(json.dumps(e["impls"]) + e["P"]["t"] for e in events))
     ck.cov["rule"] = ("every derivable trait x 3 parameter lists (type / type,type,const / lifetime,type,const) x type pool (~20 expressions per type parameter) "
                       "x usage states of the field x struct/enum; where-atom sets through both entry points, and every distinct generic program compiled with rustc")
@@ -432,6 +444,10 @@ C20_SPECIAL = [
     ("unsized_slice_tail", "Debug, PartialEq, Eq, PartialOrd, Ord, Hash", "pub struct X(pub u8, pub [u8]);"),
     ("by_first_middle_last_eq", "PartialEq", "pub struct X { #[partial_eq(by = |a, b| a == b)] pub a: u8, #[partial_eq(by = |a, b| a == b)] pub b: u8, #[partial_eq(by = |a, b| a == b)] pub c: u8 }"),
     ("by_middle_all", "Ord, PartialOrd, Eq, PartialEq, Hash", "pub struct X { pub a: u8, #[ord(by = |a: &u8, b: &u8| a.cmp(b))] #[hash(by = |a: &u8, s| ::core::hash::Hash::hash(a, s))] pub b: u8, pub c: u8 }"),
+    ("by_partial_ord_first", "PartialOrd, PartialEq", "pub struct X { #[partial_ord(by = |a: &u8, b: &u8| a.partial_cmp(b))] pub a: u8, pub b: u8, pub c: u8 }"),
+    ("by_ord_first_enum", "Ord, PartialOrd, Eq, PartialEq", "pub enum X { A(#[ord(by = |a: &u8, b: &u8| a.cmp(b))] u8, u8), B { #[ord(by = |a: &u8, b: &u8| a.cmp(b))] x: u8, y: u8 } }"),
+    ("by_eq_named_middle", "Eq, PartialEq, Hash", "pub struct X { pub a: u8, #[eq(by = |a: &u8, b: &u8| a == b)] #[hash(key = $)] pub long_name: u8, pub c: u8 }"),
+    ("by_all_named", "Ord, PartialOrd, Eq, PartialEq, Hash", "pub struct X { #[ord(by = |a: &u8, b: &u8| a.cmp(b))] #[hash(by = |a: &u8, s| ::core::hash::Hash::hash(a, s))] pub first_field: u8, #[partial_ord(by = |a: &u8, b: &u8| a.partial_cmp(b))] #[ord(by = |a: &u8, b: &u8| a.cmp(b))] #[hash(ignore)] pub second: u8 }"),
     ("by_generic_field", "Ord, PartialOrd, Eq, PartialEq", "pub struct X<T: ::core::cmp::Ord> { #[ord(by = |a: &T, b: &T| a.cmp(b))] pub a: T, pub b: u8 }"),
     ("by_generic_enum", "PartialOrd, PartialEq", "pub enum X<T: ::core::cmp::PartialOrd> { A(#[partial_ord(by = |a: &T, b: &T| a.partial_cmp(b))] T, u8), B }"),
     ("hash_by_generic", "Hash", "pub struct X<T: ::core::hash::Hash>(#[hash(by = |a: &T, s| ::core::hash::Hash::hash(a, s))] pub T);"),
@@ -453,12 +469,18 @@ C20_SPECIAL = [
 ]
 
 
-def c20_program(attr, item, entry="attr"):
+NEEDS_NAME_LINTS = ("raw_idents", "raw_enum", "local_names_fields", "local_names_variants", "param_named_like_locals", "param_named_f_debug",
+                    "const_named_like_locals")
+
+
+def c20_program(attr, item, entry="attr", tag=""):
     if entry == "attr":
         head = "#[::derive_ex::derive_ex(%s)]" % attr
     else:
         head = "#[derive(::derive_ex::Ex)] #[derive_ex(%s)]" % attr
-    return "#![deny(warnings)]\n#![allow(dead_code, non_camel_case_types, non_snake_case, non_upper_case_globals)]\n%s %s\n" % (head, item)
+    # naming lints are allowed only where the USER's own names need it: generated names must not draw them
+    allow = "dead_code, non_camel_case_types, non_snake_case, non_upper_case_globals" if tag in NEEDS_NAME_LINTS else "dead_code"
+    return "#![deny(warnings)]\n#![allow(%s)]\n%s %s\n" % (allow, head, item)
 
 
 def c20_random_items(tier, rnd):
@@ -529,7 +551,7 @@ def c20_item_of(P):
     """program text for a bounds-family descriptor: per-trait bound applies to the subject trait only; marker traits are declared"""
     attr, item = bf.item_parts(P)
     ids = sorted(set(re.findall(r"M_[A-Za-z0-9_]+", attr + item)))
-    decls = "".join("pub trait %s {}\nimpl<T: ?Sized> %s for T {}\n" % (m, m) for m in ids)
+    decls = "".join("#[allow(non_camel_case_types)] pub trait %s {}\nimpl<T: ?Sized> %s for T {}\n" % (m, m) for m in ids)
     decls += "".join("pub trait Dcl%d {}\nimpl<T: ?Sized> Dcl%d for T {}\n" % (k, k) for k in range(1, P["decl"] + 1))
     return attr, item, decls
 
@@ -560,7 +582,7 @@ def c20(tier):
         i, (tag, attr, item, decls) = ix
         entry = "attr" if (i % 2 == 0 or item.startswith("impl")) else "derive"
         first, rest = (item.split("\n", 1) + [""])[:2]
-        src = c20_program(attr, first, entry) + rest + "\n" + decls
+        src = c20_program(attr, first, entry, tag) + rest + "\n" + decls
         ok, diags = dx.check_only("p%d" % i, src, wd, deny_warnings=False)
         ds = [d for d in diags if d.get("level") in ("error", "warning") and "aborting due to" not in d.get("message", "")
               and "warning emitted" not in d.get("message", "") and "warnings emitted" not in d.get("message", "")]
@@ -606,3 +628,123 @@ def c20(tier):
                       "plus a seeded grammar crossing trait lists x struct/enum x 3 parameter lists x the type pool x comparison / debug / default attributes x continuing explicit bounds; metadata-only rustc under deny(warnings)")
     ck.assumptions.append("decisive oracle: rustc; programs whose own expansion contains compile_error! are out of scope (C05)")
     return ck.finish()
+
+
+# ------------------------------------------------------------------------------------------------
+# C03, behavioural half: trait-solver bit matrix over probe instantiations, derived impl vs a twin impl that carries
+# exactly the where-clause TLC prescribes (Emit_Bounds)
+# ------------------------------------------------------------------------------------------------
+PROBE_TRAITS = ["Clone", "Copy", "Debug", "Default", "PartialEq", "Eq", "PartialOrd", "Ord", "Hash"]
+PROBE_PRELUDE = """    #[derive(Clone, Copy, Debug, Default, PartialEq, Eq, PartialOrd, Ord, Hash)] pub struct Yes;
+    pub struct No;
+    // the associated type crosses over, so a bound on `T` and a bound on `T::Assoc` give different matrices
+    impl ::dx_support::Tr for Yes { type Assoc = No; }
+    impl ::dx_support::Tr for No { type Assoc = Yes; }
+    pub trait Fallback { const B: bool = false; }
+    impl<T: ?Sized> Fallback for T {}
+    pub struct IsT<T: ?Sized>(::core::marker::PhantomData<T>);
+    impl<T: ?Sized + %s> IsT<T> { pub const B: bool = true; }
+    pub struct IsMk<T: ?Sized>(::core::marker::PhantomData<T>);
+    impl<T: ?Sized + Mk> IsMk<T> { pub const B: bool = true; }
+    pub trait Mk {}
+"""
+
+
+def tlc_emit_where(Ps, tag):
+    """ask TLC (Emit_Bounds) for DocWhere of every descriptor"""
+    path = os.path.join(dx.WORK, "trace", "%s-%d.ndjson" % (tag, os.getpid()))
+    os.makedirs(os.path.dirname(path), exist_ok=True)
+    with open(path, "w") as f:
+        for P in Ps:
+            f.write(json.dumps({"P": P}, separators=(",", ":")) + "\n")
+    st, outp = dx.tlc_run("Emit_Bounds", "Emit_Bounds.cfg", tag, workers=1, env_extra={"TRACE": path}, cache=False,
+                          jvm="-Xss1g -Xmx3g -Dtlc2.tool.queue.IStateQueue=StateDeque")
+    ws = dx.parse_prints(open(outp).read(), "WHERE")
+    os.remove(path)
+    by = {w["i"]: w["w"] for w in ws}
+    if len(by) != len(Ps):
+        raise dx.ToolError("Emit_Bounds answered %d of %d descriptors (%s)" % (len(by), len(Ps), outp))
+    os.remove(outp)
+    return [by[i + 1] for i in range(len(Ps))]
+
+
+def probe_module(idx, P, tags):
+    t = P["t"]
+    attr, item = bf.item_parts(P)
+    texts = dict(bf.tag_texts(P, ("plain",)))
+    atoms = []
+    for tg in tags:
+        if tg not in texts:
+            raise dx.ToolError("no rendering for tag %s" % tg)
+        atoms.append(texts[tg])
+    gens = bf.generics_src(P)
+    # parameter list of the twin = that of the item, used through a PhantomData
+    names = []
+    for i, p in enumerate(P["params"]):
+        names.append(bf.pname(P, i + 1))
+    lts = [n for n in names if n.startswith("'")]
+    tys = [n for n in names if n.startswith("T")]
+    # `&'l T` for every pair: the twin then has the same implied outlives bounds as an item with such fields
+    use = ", ".join([("&%s ()" % n) if n.startswith("'") else ("[u8; %s]" % n if n.startswith("N") else n) for n in names] +
+                    ["&%s %s" % (l, t) for l in lts for t in tys])
+    args = ", ".join(names)
+    lines = ["pub mod m%d {" % idx, PROBE_PRELUDE % bf.trait_path(t)]
+    lines.append("".join("    pub trait Dcl%d {} impl<T: ?Sized> Dcl%d for T {}\n" % (k, k) for k in range(1, P["decl"] + 1)))
+    lines.append("    #[::derive_ex::derive_ex(%s)] %s" % (attr, item.strip()))
+    lines.append("    pub struct Twin%s(::core::marker::PhantomData<(%s,)>);" % (gens, use))
+    lines.append("    impl%s Mk for Twin<%s> %s {}" % (gens, args, ("where " + ", ".join(atoms)) if atoms else ""))
+    tps = [i for i, p in enumerate(P["params"]) if p["k"] == "type"]
+    combos = list(itertools.product(["Yes", "No"], repeat=len(tps)))
+    lines.append("    pub fn run() -> String {\n        let mut s = String::from(\"{\\\"id\\\":%d,\\\"bits\\\":[\");" % idx)
+    for ci, combo in enumerate(combos):
+        inst = []
+        k = 0
+        for i, p in enumerate(P["params"]):
+            if p["k"] == "type":
+                inst.append(combo[k])
+                k += 1
+            elif p["k"] == "const":
+                inst.append("2")
+            else:
+                inst.append("'static")
+        a = ", ".join(inst)
+        lines.append("        s += &format!(\"%s{{\\\"inst\\\":\\\"%s\\\",\\\"derived\\\":{},\\\"twin\\\":{}}}\", <IsT<X<%s>>>::B, <IsMk<Twin<%s>>>::B);"
+                     % ("," if ci else "", "+".join(combo), a, a))
+    lines.append("        s += \"]}\\n\"; s\n    }\n}")
+    return "\n".join(lines)
+
+
+def c03_probe(ck, tier, Ps):
+    import checks_run
+    sel = [P for P in Ps if P["t"] in PROBE_TRAITS]
+    rnd = random.Random(dx.seed() + 11)
+    sel = [copy.deepcopy(P) for P in rnd.sample(sel, min(len(sel), 500 if tier == "quick" else 4000))]
+    # every type parameter gets the Tr bound so that T::Assoc types are well-formed for both probes
+    for P in sel:
+        for p in P["params"]:
+            if p["k"] == "type" and "assoc" in json.dumps(P["variants"]):
+                p["inline"] = "::dx_support::Tr"
+    wheres = tlc_emit_where(sel, "c03emit")
+    mods = [(i, probe_module(i, P, wheres[i])) for i, P in enumerate(sel)]
+    res, failed = checks_run.run_modules(mods, "c03p")
+    events = []
+    for i, P in enumerate(sel):
+        if i in res:
+            events.append({"ev": "probe", "P": P, "tags": wheres[i], "rustc_ok": True, "bits": res[i][0]["bits"]})
+        else:
+            events.append({"ev": "probe", "P": P, "tags": wheres[i], "rustc_ok": False, "bits": []})
+    n, bad, jst = dx.tlc_judge("Trace_Bounds", "Trace_Bounds.cfg", events, "c03p", chunk=max(100, -(-len(events) // 8)))
+    ck.add_judge(n, jst)
+    for i in bad:
+        P = sel[i]
+        e = events[i]
+        diff = [b for b in e["bits"] if b["derived"] != b["twin"]]
+        ftys = sorted(set(f["ty"]["k"] for v in P["variants"] for f in v["fields"]))
+        sig = {"kind": "probe_matrix", "trait": P["t"], "item": P["kind"], "usage": P.get("usage"), "types": "+".join(ftys), "rustc_ok": e["rustc_ok"]}
+        ck.violation(sig, {"what": "the derived impl applies to different instantiations than an impl carrying the specified where-clause",
+                           "source": mods[i][1], "differing": diff, "tags": e["tags"], "diagnostics": failed.get(i)})
+    varied = sum(1 for e in events if len(set(b["derived"] for b in e["bits"])) > 1)
+    ck.notes["probe"] = {"items": len(events), "items_whose_impl_depends_on_the_instantiation": varied}
+    if events and varied == 0:
+        raise dx.ToolError("vacuous probe matrix")
+    return len(events)
